@@ -105,18 +105,21 @@ func (c *Chunk) WriteBytes(b []byte) error {
 		return err
 	case l < LimitSmall:
 		if x, err = c.checkWriteSize(1 + int(l)); x == -1 {
+			c.buf = c.buf[:i]
 			return err
 		}
 		_, x = c.buf[i+1+int(l)], x+1
 		c.buf[i], c.buf[i+1] = 1, byte(l)
 	case l < LimitMedium:
 		if x, err = c.checkWriteSize(2 + int(l)); x == -1 {
+			c.buf = c.buf[:i]
 			return err
 		}
 		_, x = c.buf[i+2+int(l)], x+2
 		c.buf[i], c.buf[i+1], c.buf[i+2] = 3, byte(l>>8), byte(l)
 	case l < LimitLarge:
 		if x, err = c.checkWriteSize(4 + int(l)); x == -1 {
+			c.buf = c.buf[:i]
 			return err
 		}
 		_, x = c.buf[i+4+int(l)], x+4
@@ -124,6 +127,7 @@ func (c *Chunk) WriteBytes(b []byte) error {
 		c.buf[i+3], c.buf[i+4] = byte(l>>8), byte(l)
 	default:
 		if x, err = c.checkWriteSize(8 + int(l)); x == -1 {
+			c.buf = c.buf[:i]
 			return err
 		}
 		_, x = c.buf[i+8+int(l)], x+8
